@@ -38,9 +38,10 @@ CLAIMED = {
    text='Unbounded proof (Verus/Z3) over the real bodies of PartialDSet, SimpleDSet, collect_orbits, PartialDSym and SimpleDSym: the involution '
         'invariant is kept by new/set (with frame), op is total (None out of range, no panic for any usize), collect_orbits builds orbit tables '
         'constant along both operations with r >= 1 = least return time at the representative, r/v/m of BOTH symbol representations equal the same '
-        'spec functions of the tables (m = r*v, symmetric, constant on orbits, None out of range).',
-   note='Trusted: Verus+Z3, vstd, <[T]>::fill spec, derived Clone. Not decided: Traversal/orbits/orbit_reps/connected/oriented predicates '
-        '(stateful iterator over BTreeMap/VecDeque/HashSet), the default DSet::r (fold/and_then), PartialDSet::grow, termination of orbit loops; '
+        'spec functions of the tables (m = r*v, symmetric, constant on orbits, None out of range); the default DSet::r (generic over the interface): Some(r) is the '
+        'least positive number of steps of (operation i, then operation j) leading from d back to d, None out of range or where the walk leaves the defined operations.',
+   note='Trusted: Verus+Z3, vstd, <[T]>::fill spec, derived Clone; walk(e,[i,j]) by its std semantics. Not decided by contracts (bounded stand-in): '
+        'Traversal/orbits/orbit_reps/connected/oriented predicates (stateful iterator over BTreeMap/VecDeque/HashSet), PartialDSet::grow; termination of orbit loops; '
         'the lift of the return-time statement from orbit representatives to every chamber is stated as spec-level lemmas only.',
    ref='5 C02', technique=TECH),
  'C01': dict(
